@@ -30,6 +30,9 @@ type Profile struct {
 	// FailKinds: failing exports may return context errors of the downstream
 	// side or permanent errors instead of an ordinary error
 	FailKinds bool
+	// RetainPct: percent of scenarios whose next consumer keeps the batches it
+	// accepted and modifies them afterwards (it owns them)
+	RetainPct int
 }
 
 // fullChannel reports whether this process generates scenarios with more
@@ -63,7 +66,10 @@ var crossValues = []string{"a", "b", "a", "b", "env", "tenant"}
 // confuse (the D1 lesson applied to metadata): multi-valued vs the same text in
 // one value, order, empty strings, case.
 var tenantValues = [][]string{
-	nil, {"a"}, {"b"}, {"a", "b"}, {"a, b"}, {"a,b"}, {"b", "a"}, {""}, {"", ""}, {"a", ""}, {"A"}, {"a b"}, {"a", "b", "c"}, {"a, b", "c"}, {"a", "b, c"},
+	nil, {"a"}, {"b"}, {"a", "b"}, {"a "}, {"a, b"}, {" a"}, {"a,b"}, {"b", "a"}, {""}, {"", ""}, {"a", ""}, {"A"}, {"a b"}, {"a", "b", "c"}, {"a, b", "c"}, {"a", "b, c"},
+	// twins under whitespace trimming, Unicode normalisation, percent / plus
+	// decoding, NUL truncation (seeded change C10e trims optional whitespace)
+	{"a\t"}, {"a\n"}, {" "}, {"\u00e9"}, {"e\u0301"}, {"a%20b"}, {"a+b"}, {"a\x00"}, {"a", " b"}, {"a ", "b"},
 }
 
 func genMeta(t *rapid.T, i int) map[string][]string {
@@ -161,7 +167,13 @@ func GenScenario(t *rapid.T, p Profile) *Scenario {
 	if sc.Gated {
 		sc.HonourCancel = pct(t, "honour", p.HonourCancel)
 	}
+	if p.RetainPct > 0 {
+		sc.Retain = pct(t, "retain", p.RetainPct)
+	}
 	sc.Spans = p.Spans
+	if p.Spans {
+		sc.SmallIDs = rapid.Bool().Draw(t, "smallids")
+	}
 	maxReqs := p.MaxReqs
 	if maxReqs == 0 {
 		maxReqs = 8
